@@ -648,11 +648,18 @@ impl expr::Expr
 						let right = propagate!(
 							right_expr.eval_with_ctx(report, ctx, provider)?);
 
-						let left_usize = left
-							.expect_usize(report, span)?
+						let left_index = left.expect_usize(report, span)?;
+						let left_usize = left_index
 							.checked_add(1)
 							.ok_or_else(|| report.error_span("value is out of supported range", span))?;
 						let right_usize = right.expect_usize(report, span)?;
+
+						// `x[hi:lo]` needs `hi >= lo`
+						// (one bit when they're equal)
+						if left_index < right_usize
+						{
+							return Err(report.error_span("invalid slice range", span));
+						}
 
 						Ok(expr::Value::make_integer(
 							x.checked_slice(
